@@ -1286,3 +1286,142 @@ class Reparse:
         for c in ("a", "b", "x"):
             if c in e and isinstance(e[c], dict):
                 self._walk(rule, e[c], out)
+
+
+# ------------------------------------------------------------------------------------------
+# G-SKIP: implicit whitespace / comment skipping never competes with what a rule can match
+
+WS_CHARS = (" ", "\t", "\n", "\r")
+_CHAR_BUILTINS = {"ASCII_ALPHA": lambda c: c.isascii() and c.isalpha(), "ASCII_ALPHANUMERIC": lambda c: c.isascii() and c.isalnum(),
+                  "ASCII_DIGIT": lambda c: c in "0123456789", "ASCII_HEX_DIGIT": lambda c: c in "0123456789abcdefABCDEF",
+                  "ASCII_NONZERO_DIGIT": lambda c: c in "123456789", "ASCII_BIN_DIGIT": lambda c: c in "01", "ASCII_OCT_DIGIT": lambda c: c in "01234567",
+                  "ASCII_ALPHA_LOWER": lambda c: c.isascii() and c.islower(), "ASCII_ALPHA_UPPER": lambda c: c.isascii() and c.isupper(),
+                  "NEWLINE": lambda c: c in "\r\n", "ANY": lambda c: True, "ASCII": lambda c: c.isascii()}
+
+
+def skip_ambiguities(grammar):
+    """[(rule, what)]: places where pest's implicit skip (WHITESPACE / COMMENT between the elements of a sequence and between the
+    iterations of a repetition, in every rule that is not atomic) is followed by something that can itself *begin with a
+    whitespace character*.  There the skip wins: the leading blanks (and anything that looks like a comment) of what the
+    template author wrote - the content of a string literal, say - are dropped before the rule that should have captured them
+    gets to see them.  In a sound lexical grammar every rule that can match blanks is reached only inside atomic rules."""
+    rules = {r["name"]: r for r in grammar}
+    if "WHITESPACE" not in rules and "COMMENT" not in rules:
+        return [], []
+
+    def nullable(e, seen=()):
+        k = e["k"]
+        if k == "str":
+            return e["v"] == ""
+        if k in ("rep", "opt", "negpred", "pospred"):
+            return True
+        if k == "reponce":
+            return nullable(e["x"], seen)
+        if k == "seq":
+            return nullable(e["a"], seen) and nullable(e["b"], seen)
+        if k == "choice":
+            return nullable(e["a"], seen) or nullable(e["b"], seen)
+        if k == "ident":
+            v = e["v"]
+            if v in ("SOI", "EOI"):
+                return True
+            if v in rules and v not in seen:
+                return nullable(rules[v]["expr"], seen + (v,))
+            return False
+        return False
+
+    def blocks(e, c):
+        """a negative lookahead on e certainly fails a position that starts with c (e always matches there)"""
+        k = e["k"]
+        if k == "str":
+            return e["v"] == c
+        if k == "range":
+            return e.get("a", "") <= c <= e.get("b", "")
+        if k == "choice":
+            return blocks(e["a"], c) or blocks(e["b"], c)
+        if k == "ident" and e["v"] in _CHAR_BUILTINS:
+            return _CHAR_BUILTINS[e["v"]](c)
+        if k == "ident" and e["v"] in rules:
+            return blocks(rules[e["v"]]["expr"], c)
+        return False
+
+    def starts(e, c, seen=()):
+        """can e match a text that begins with the character c"""
+        k = e["k"]
+        if k == "str":
+            return e["v"].startswith(c)
+        if k == "insens":
+            return e["v"].lower().startswith(c.lower())
+        if k == "range":
+            return e.get("a", "") <= c <= e.get("b", "")
+        if k == "ident":
+            v = e["v"]
+            if v in _CHAR_BUILTINS:
+                return _CHAR_BUILTINS[v](c)
+            if v in rules and v not in seen:
+                return starts(rules[v]["expr"], c, seen + (v,))
+            return False
+        if k == "seq":
+            a, b = e["a"], e["b"]
+            if a["k"] == "negpred":
+                return (not blocks(a["x"], c)) and starts(b, c, seen)
+            return starts(a, c, seen) or (nullable(a) and starts(b, c, seen))
+        if k == "choice":
+            return starts(e["a"], c, seen) or starts(e["b"], c, seen)
+        if k in ("rep", "opt", "reponce"):
+            return starts(e["x"], c, seen)
+        return False
+
+    # rules that can run outside an atomic context
+    refs = {}
+
+    def collect(e, out):
+        if e["k"] == "ident" and e["v"] in rules:
+            out.add(e["v"])
+        for kk in ("a", "b", "x"):
+            if isinstance(e.get(kk), dict):
+                collect(e[kk], out)
+    for n, r in rules.items():
+        s = set()
+        collect(r["expr"], s)
+        refs[n] = s
+    referenced = set().union(*refs.values()) if refs else set()
+    na = {n for n, r in rules.items() if n not in referenced and r["ty"] in ("normal", "silent", "nonatomic")}
+    na |= {n for n, r in rules.items() if r["ty"] == "nonatomic"}
+    work = list(na)
+    while work:
+        n = work.pop()
+        if rules[n]["ty"] not in ("normal", "silent", "nonatomic"):
+            continue
+        for m in refs[n]:
+            if m not in na and rules[m]["ty"] in ("normal", "silent", "nonatomic") and m not in ("WHITESPACE", "COMMENT"):
+                na.add(m)
+                work.append(m)
+    out = []
+
+    def describe(e):
+        if e["k"] == "ident":
+            return "`%s`" % e["v"]
+        if e["k"] == "str":
+            return "%r" % e["v"]
+        return "a %s group" % e["k"]
+
+    def scan(n, e):
+        k = e["k"]
+        if k == "seq":
+            b = e["b"]
+            hit = [c for c in WS_CHARS if starts(b, c)]
+            if hit:
+                out.append((n, "in the sequence of rule `%s` the implicit skip is followed by %s, which can itself begin with a blank" % (n, describe(b))))
+        if k in ("rep", "reponce"):
+            hit = [c for c in WS_CHARS if starts(e["x"], c)]
+            if hit:
+                out.append((n, "rule `%s` repeats %s, which can begin with a blank, with the implicit skip between the iterations" % (n, describe(e["x"]))))
+        for kk in ("a", "b", "x"):
+            if isinstance(e.get(kk), dict):
+                scan(n, e[kk])
+    for n in sorted(na):
+        if n in ("WHITESPACE", "COMMENT"):
+            continue
+        scan(n, rules[n]["expr"])
+    return out, sorted(na)
